@@ -139,7 +139,22 @@ pub fn public_trajectories(engine: &Engine, lines: &[String], durations: &[usize
     let models = Models::new(labels.labels(), &engine.voices, c.get_interporation_weight());
     let spectrum = MlpgAdjust::new(c.get_gv_weight(0), c.get_msd_threshold(0), models.model_stream(0)).create(durations);
     let mut ms = models.model_stream(1);
-    ms.stream.apply_additional_half_tone(c.get_additional_half_tone());
+    // the pitch shift, restated: h x ln2/12 is added to the static log-F0 mean and the sum is kept
+    // inside ln 20 .. ln 20000; with h = 0 the Gaussians are handed over untouched
+    let h = c.get_additional_half_tone();
+    if h != 0.0 {
+        let shift = h * (std::f64::consts::LN_2 / 12.0);
+        let moved: Vec<_> = ms
+            .stream
+            .iter()
+            .cloned()
+            .map(|(mut p, w)| {
+                p[0].0 = (p[0].0 + shift).clamp(20f64.ln(), 20000f64.ln());
+                (p, w)
+            })
+            .collect();
+        ms.stream = jbonsai::model::StreamParameter::new(moved);
+    }
     let lf0 = MlpgAdjust::new(c.get_gv_weight(1), c.get_msd_threshold(1), ms).create(durations);
     let lpf = if engine.voices.global_metadata().num_streams > 2 {
         MlpgAdjust::new(c.get_gv_weight(2), c.get_msd_threshold(2), models.model_stream(2)).create(durations)
